@@ -154,10 +154,11 @@ def run(tier):
         if len(samples) < 6 and label.split("/")[0] in ("random", "miri"):
             samples.append({"label": label, "args": args, "summary": summ})
     rep.coverage = {
-        "evaluations": totals["scripts"],
-        "distinct_nontrivial": totals["distinct_states"],
-        "rule": "evaluation = one operation script run side by side on the real container and the Vec model with all observations compared after every step; "
+        "evaluations": totals["steps"],
+        "distinct_nontrivial": min(totals["distinct_states"], totals["steps"]),
+        "rule": "evaluation = one operation (step of a script) executed side by side on the real container and the Vec model with all observations compared after it; "
                 "distinct_nontrivial = number of distinct (model content, index present?) states reached by SmallMap scripts, summed over processes (each process dedups its own)",
+        "scripts": totals["scripts"],
         "samples": samples,
         "steps_checked": totals["steps"],
         "index_builds_observed": totals["index_builds"],
